@@ -28,6 +28,7 @@ def run(ctx):
     meta_rules.rowcount_rule(ctx, 'R19.5', only_modules={'api', 'writer'})
     ar.mode_params_rule(ctx, 'R19.6')
     ar.compat_checks_rule(ctx, 'R19.7')
+    ar.kind_checks_rule(ctx, 'R19.7')
     from . import c07 as _c07, c01 as _c01
     _c07.r712(ctx, 'R19.8')
     _c01.r121(ctx, 'R19.9')
